@@ -406,6 +406,14 @@ class Frame:
         return r
 
     def s_While(self, st):
+        hook = getattr(self.ev, "while_hook", None)
+        if hook is not None and hook(self, st):
+            return
+        for n in ast.walk(st.test):
+            if isinstance(n, ast.Name) and type(self.env.get(n.id)).__name__ == "FindResult":
+                from .absbuf import find_loop
+                find_loop(self, st, n.id)
+                return
         n = 0
         while self._while_test(st):
             n += 1
@@ -590,6 +598,9 @@ class Frame:
         if isinstance(a, list) and isinstance(op, ast.Mult):
             if hasattr(self.ev, "list_times"):
                 return self.ev.list_times(self, a, b, node)
+        if isinstance(op, ast.Add) and hasattr(self.ev, "list_times") and (hasattr(a, "length") or hasattr(b, "length")):
+            from .segbuf import SegBuf
+            return SegBuf(SegBuf.segments_of(a) + SegBuf.segments_of(b), "concatenation")
         if isinstance(a, (str, Opaque)) or isinstance(b, (str, Opaque)):
             return Opaque("string-expr")
         if isinstance(a, int) and isinstance(b, int):
@@ -815,6 +826,9 @@ class Frame:
                 if f.classm:
                     return Bound(f, o)
                 return f
+            for x in self.ev.class_lookup(o, attr):
+                if isinstance(x, tuple):
+                    return Frame(self.ev, x[1].mod, {}, x[1]).expr(x[2])
             raise AnalysisError("engine B: class attribute %s.%s" % (o.name, attr))
         if isinstance(o, SuperProxy):
             mro = self.ev.mro(o.self_.cls)
